@@ -230,7 +230,7 @@ class G:
 
     # -- choice lists
     def make_list(self, nm=None):
-        nm = nm or f"l{len(self.lists) + 1}"
+        nm = nm or (self.pick(["l", "z", "b", "m", "a"]) if self.P.get("odd_list_names") else "l") + str(len(self.lists) + 1)
         k = self.integer(1, self.P.get("max_choices", 5))
         rows = []
         extra_cols = []
@@ -693,10 +693,17 @@ def build_form(draw, P, g=None):
         form["settings"] = s
     if g.entities_enabled:
         e = {"dataset": g.pick(["people", "trees", "ds_1"])}
-        if g.p("_", 0.8):
-            e["label"] = "concat(${%s}, 'e')" % g.pick(g.names) if g.names and g.p("_", 0.7) else "'lab'"
-        else:
-            e["entity_id"] = "${%s}" % g.pick(g.names) if g.names else "'id'"
+        ref = (lambda: "${%s}" % g.pick(g.names)) if g.names else (lambda: "'id'")
+        # one of the accepted rows of the create/update table
+        pat = g.pick(["l", "l", "l", "cl", "i", "iu", "il", "iul", "icu", "icul"])
+        if "l" in pat:
+            e["label"] = "concat(%s, 'e')" % ref() if g.p("_", 0.7) else "'lab'"
+        if "i" in pat:
+            e["entity_id"] = ref()
+        if "c" in pat:
+            e["create_if"] = "%s = 'new'" % ref()
+        if "u" in pat:
+            e["update_if"] = "%s = 'old'" % ref()
         form["entities"] = [e]
     if g.p("p_extra_sheets", 0.1):
         form["extra_sheets"] = [g.pick(["notes", "_settings", "Sheet3", "lookup_data"])]
